@@ -66,6 +66,21 @@ type RootCtx struct {
 	boundedK      int // >0: bounded instance search, loops unrolled K times
 	sentinels     []*Term
 	top           *FnCtx
+	// reads from input streams in the order they were executed symbolically (see StreamRead)
+	stream    []*StreamRead
+	streamBad bool
+}
+
+// StreamRead records one read from a reader (binary.Read, io.ReadFull) so that a counterexample
+// can be turned into the bytes the reader must deliver.
+type StreamRead struct {
+	PC     *Term
+	Terms  []*Term // fixed-size reads: the values delivered, in stream order
+	Widths []int   // width in bytes of each value
+	ErrTag *Term   // type tag of the returned error (0: nil)
+	// reads into a slice: bytes Heap[Arr][Lo .. Lo+Len)
+	Heap, Arr, Lo, Len *Term
+	ElemW              int
 }
 
 type InputBinding struct {
